@@ -360,7 +360,7 @@ func c13ConfigRoute(c *Ctx, fam *report.Family, mk func() *nfpm.Config, in map[s
 // the packages: every entry type x every packager tag, once without any override block and once with a block for the
 // format being built that sets an unrelated field (Config.Get filters contents itself only in that case).
 func c13TaggedContents(c *Ctx) error {
-	fam := c.Rep.Family("tagged-contents-in-packages", "exhaustive: every entry type (file, config, config|noreplace, dir, symlink, tree, ghost, doc, licence, license, readme) x every packager tag (none + 5 formats) as one entry of a YAML configuration x {no override block, an override block for the built format that only sets homepage} x 5 formats: nfpm.Parse, Config.Get(format), Package, independent decoding; the entry is in the package iff it is addressed to that format (or to all) and its type exists there; non-trivial = the entry is tagged")
+	fam := c.Rep.Family("tagged-contents-in-packages", "exhaustive: every entry type (file, config, config|noreplace, dir, symlink, tree, ghost, doc, licence, license, readme) x every packager tag (none + 5 formats) as one entry of a YAML configuration x {no override block, an override block for the built format that only sets depends} x 5 formats: nfpm.Parse, Config.Get(format), Package, independent decoding; the entry is in the package iff it is addressed to that format (or to all) and its type exists there; non-trivial = the entry is tagged")
 	fam.Exhaustive = true
 	tree, err := MkTree(filepath.Join(c.Tmp, "c13src"), 0)
 	if err != nil {
@@ -391,7 +391,7 @@ func c13TaggedContents(c *Ctx) error {
 					doc := "name: verifpkg\narch: amd64\nplatform: linux\nversion: 1.2.3\nmaintainer: Verif <verif@example.com>\ndescription: verification package\n" +
 						"mtime: 2023-11-14T22:13:20Z\ncontents:\n- src: " + filepath.Join(tree.Root, "bin/tool") + "\n  dst: /usr/bin/plain\n" + e.String()
 					if withBlock {
-						doc += "overrides:\n  " + f + ":\n    homepage: https://example.com/" + f + "\n"
+						doc += "overrides:\n  " + f + ":\n    depends: [only-" + f + "]\n"
 					}
 					in := map[string]any{"entry_type": ty, "entry_packager": tg, "format": f, "override_block": withBlock, "document": doc}
 					key := fmt.Sprintf("%s|%s|%v|%s", ty, tg, withBlock, f)
